@@ -47,20 +47,42 @@ def dumpLoop (t : Trie) : Nat → List Label → List String → Option (List St
 def dumpLine (t : Trie) : Option String :=
   (dumpLoop t (nodeBound t.pats + 1) [[]] []).map fun es => "|".intercalate es
 
-/-- One query; `none` = bad-op, `some none` = panic. -/
-def runOp (t : Trie) (ts : List String) : Option (Option String) :=
+/-- Driver state of a case: the trie, whether patterns were inserted since the last
+`BuildFailureLinks` (`dirty`: queries are then outside the property; a panic of such a query
+is recovered by the caller and the trie is used on), and the last string result (what the
+argument `^` stands for: the caller feeds a result back in as the next text / key). -/
+structure DState where
+  t : Trie
+  dirty : Bool
+  last : List Nat
+deriving Repr
+
+/-- A byte-string argument: hex, `-` = empty, `^` = the last result. -/
+def argBytes (s : DState) (a : String) : Option (List Nat) :=
+  if a == "^" then some s.last
+  else (unhex a).bind fun bs => if bytesOK bs then some bs else none
+
+/-- One query on the current trie; `none` = bad-op, `some none` = panic, otherwise the answer
+and, for a non-empty list answer, its last element (the new `last`). -/
+def runOp (s : DState) (ts : List String) : Option (Option (String × Option (List Nat))) :=
+  let lastOf (xs : List (List Nat)) : Option (List Nat) := xs.getLast?
   match ts with
-  | ["dump"] => some (dumpLine t)
+  | ["dump"] => some ((dumpLine s.t).map fun o => (o, none))
+  | ["sibling", pat, text] =>
+    -- an independent second trie (a copy of the zero value), built from one pattern
+    match argBytes s pat, argBytes s text with
+    | some p, some x =>
+      some (((Trie.ofPatterns [p]).bind fun t2 => t2.findAll x).map fun ws => (showStrs ws, none))
+    | _, _ => none
   | [op, arg] =>
-    match unhex arg with
+    match argBytes s arg with
     | none => none
     | some bs =>
-      if !bytesOK bs then none else
       match op with
-      | "match" => some ((t.match bs).map showBool)
-      | "findall" => some ((t.findAll bs).map showStrs)
-      | "prefix" => some ((t.prefixSearch bs).map showStrs)
-      | "fuzzy" => some ((t.fuzzySearch bs).map showStrs)
+      | "match" => some ((s.t.match bs).map fun b => (showBool b, none))
+      | "findall" => some ((s.t.findAll bs).map fun ws => (showStrs ws, lastOf ws))
+      | "prefix" => some ((s.t.prefixSearch bs).map fun ws => (showStrs ws, lastOf ws))
+      | "fuzzy" => some ((s.t.fuzzySearch bs).map fun ws => (showStrs ws, lastOf ws))
       | _ => none
   | _ => none
 
@@ -68,40 +90,58 @@ def runOp (t : Trie) (ts : List String) : Option (Option String) :=
 current trie (its failure table is left as it is: new nodes have `nil`), `build` =
 `BuildFailureLinks()` on the current trie (`Trie.rebuild`: the old table stays underneath).
 `none` = not such an op, `some none` = panic. -/
-def mutOp (t : Trie) (ts : List String) : Option (Option Trie) :=
+def mutOp (s : DState) (ts : List String) : Option (Option DState) :=
   match ts with
-  | ["build"] => some t.rebuild
+  | ["build"] => some (s.t.rebuild.map fun t' => { s with t := t', dirty := false })
   | ["insert", arg] =>
-    match unhex arg with
-    | some bs => if bytesOK bs then some (some (t.insert (decodeAll bs))) else none
+    match argBytes s arg with
+    | some bs => some (some { s with t := s.t.insert (decodeAll bs), dirty := true })
     | none => none
   | _ => none
 
-def runOps : Option Trie → List String → List String
+/-- One line: the answer and the next state (`none` = the case is dead: a panic of a call
+that is inside the property).  A panicking QUERY on a dirty trie answers `panic` and leaves
+the state as it was (the caller recovers and goes on). -/
+def stepWith (query : DState → List String → Option (Option (String × Option (List Nat))))
+    (s : DState) (ts : List String) : String × Option DState :=
+  match mutOp s ts with
+  | some (some s') => ("ok", some s')
+  | some none => ("panic", none)
+  | none =>
+    match query s ts with
+    | none => ("bad-op", some s)
+    | some none => ("panic", if s.dirty then some s else none)
+    | some (some (out, l)) => (out, some (match l with | some x => { s with last := x } | none => s))
+
+def runOpsWith (query : DState → List String → Option (Option (String × Option (List Nat)))) :
+    Option DState → List String → List String
   | _, [] => []
-  | none, _ :: ls => "dead" :: runOps none ls
-  | some t, l :: ls =>
-    match mutOp t (toks l) with
-    | some (some t') => "ok" :: runOps (some t') ls
-    | some none => "panic" :: runOps none ls
-    | none =>
-      match runOp t (toks l) with
-      | none => "bad-op" :: runOps (some t) ls
-      | some none => "panic" :: runOps none ls
-      | some (some out) => out :: runOps (some t) ls
+  | none, _ :: ls => "dead" :: runOpsWith query none ls
+  | some s, l :: ls =>
+    let r := stepWith query s (toks l)
+    r.1 :: runOpsWith query r.2 ls
 
 def parsePatterns (hdr : List String) : Option (List (List Nat)) :=
   hdr.mapM fun h => (unhex h).bind fun bs => if bytesOK bs then some bs else none
 
-def runCase (hdr : List String) (ops : List String) : List String :=
+/-- Header `trie <pats>`: Insert all, BuildFailureLinks.  Header `raw <pats>`: Insert all, no
+build (the trie is dirty from the start). -/
+def initState (hdr : List String) : Option (Option DState) :=
   match hdr with
   | "trie" :: rest =>
-    match parsePatterns rest with
-    | none => "bad-op" :: ops.map fun _ => "bad-op"
-    | some pats =>
-      match Trie.ofPatterns pats with
-      | none => "panic" :: runOps none ops
-      | some t => "ok" :: runOps (some t) ops
-  | _ => "bad-op" :: ops.map fun _ => "bad-op"
+    (parsePatterns rest).map fun pats => (Trie.ofPatterns pats).map fun t => ⟨t, false, []⟩
+  | "raw" :: rest =>
+    (parsePatterns rest).map fun pats =>
+      some ⟨pats.foldl (fun t p => t.insert (decodeAll p)) Trie.empty, true, []⟩
+  | _ => none
+
+def runCaseWith (query : DState → List String → Option (Option (String × Option (List Nat))))
+    (hdr : List String) (ops : List String) : List String :=
+  match initState hdr with
+  | none => "bad-op" :: ops.map fun _ => "bad-op"
+  | some none => "panic" :: runOpsWith query none ops
+  | some (some s) => "ok" :: runOpsWith query (some s) ops
+
+def runCase (hdr : List String) (ops : List String) : List String := runCaseWith runOp hdr ops
 
 end Golib.C05
